@@ -22,6 +22,7 @@ type Profile struct {
 	TimeoutPct   int // share of targets that declare a timeout (default 25)
 	DirOutputs   bool
 	BinOutputs   bool
+	BinWeight    int // extra weight of "the only output is a bin_output"
 	MinSteps     int
 	MaxSteps     int
 	SubsetBuilds bool // builds may name a single label instead of //...
@@ -34,7 +35,7 @@ type Profile struct {
 
 var AllEdits = []string{"edit-content", "edit-content", "shift-boundary", "swap-contents", "add-file", "remove-file", "rename-file", "toggle-file", "toggle-file", "bump-nonce",
 	"edit-fingerprint", "rename-output", "add-edge", "add-edge-alias", "remove-edge", "reroute-alias", "retarget-alias", "toggle-execbit", "swap-output-roles"}
-var AllPerturbs = []string{"perturb-delete", "perturb-delete-parent", "perturb-truncate", "perturb-overwrite", "perturb-chmod", "perturb-stale-entry", "perturb-file-for-dir"}
+var AllPerturbs = []string{"perturb-clean", "perturb-delete", "perturb-delete-parent", "perturb-truncate", "perturb-overwrite", "perturb-chmod", "perturb-stale-entry", "perturb-file-for-dir"}
 
 var pkgPool = []string{"", "a", "a/b", "ab", "c/d"}
 
@@ -100,6 +101,9 @@ func GenWS(t *rapid.T, p Profile) WS {
 		}
 		if p.BinOutputs {
 			kinds = append(kinds, 5)
+			for k := 0; k < p.BinWeight; k++ {
+				kinds = append(kinds, 5)
+			}
 		}
 		switch rapid.SampledFrom(kinds).Draw(t, "outputs") {
 		case 0: // no outputs
@@ -129,6 +133,10 @@ func GenWS(t *rapid.T, p Profile) WS {
 				}
 				tg.Deps = append(tg.Deps, l)
 			}
+		}
+		if len(tg.Deps) > 0 && rapid.IntRange(0, 7).Draw(t, "dupdep") == 0 {
+			// the same dependency declared twice (generated BUILD files do that): still one edge, one label in every query
+			tg.Deps = append(tg.Deps, tg.Deps[rapid.IntRange(0, len(tg.Deps)-1).Draw(t, "which")])
 		}
 		if p.NoCacheTags && rapid.IntRange(0, 4).Draw(t, "nocache") == 0 {
 			tg.Tags = append(tg.Tags, "no-cache")
@@ -199,6 +207,9 @@ func GenHistory(t *rapid.T, p Profile) History {
 			if rapid.IntRange(0, 1).Draw(t, "failmacro") == 0 {
 				h.Steps = append(h.Steps, Step{Kind: "bump-nonce", T: s.T, V: rapid.IntRange(0, 1).Draw(t, "force")}, Step{Kind: "build", Build: genBuild(t, p, h.WS)}, Step{Kind: "clear-switches"}, Step{Kind: "build", Build: genBuild(t, p, h.WS)})
 			}
+		case "perturb-clean":
+			// ... and something above a cached dependency has to run: what it reads must be brought back first
+			h.Steps = append(h.Steps, Step{Kind: "bump-nonce", T: rapid.IntRange(0, 7).Draw(t, "t-after-clean")}, Step{Kind: "build", Build: genBuild(t, p, h.WS)})
 		case "taint":
 			// a tainted target whose forced run fails keeps its taint: the build after the repair must run it again
 			switch m := rapid.IntRange(0, 3).Draw(t, "taintmacro"); {
